@@ -104,6 +104,8 @@ class FakeClient:
     publish_gate: "asyncio.Event | None" = None  # when set, publish() suspends until the harness sets the event
 
     async def publish(self, topic: str, payload: Any = None, qos: int = 0, retain: bool = False, **kwargs: Any) -> None:
+        if qos not in (0, 1, 2):
+            raise ValueError("Invalid QoS level.")
         self.publish_calls = getattr(self, "publish_calls", 0) + 1
         await asyncio.sleep(0)
         if FakeClient.publish_gate is not None:
@@ -118,6 +120,8 @@ class FakeClient:
                 self.queue.put_nowait(FakeMessage(in_prefix + topic[len(out_prefix):], data, qos))
 
     async def subscribe(self, topic: str, qos: int = 0, **kwargs: Any) -> None:
+        if qos not in (0, 1, 2):
+            raise ValueError("Invalid QoS level.")  # what paho answers
         await asyncio.sleep(0)
         if FakeClient.subscribe_error is not None:
             raise FakeClient.subscribe_error
